@@ -10,7 +10,12 @@ REPO = os.environ.get('VERIF_REPO', '/repo')
 NCPU = int(os.environ.get('VERIF_JOBS', '16'))
 CXXDEFS = ['-std=c++11', '-I' + REPO + '/include', '-I' + ENGINE, '-DHAVE_PCAP_IMMEDIATE_MODE=1', '-DHAVE_PCAP_TIMESTAMP_PRECISION=1',
            '-Dtins_EXPORTS', '-DNDEBUG', '-DLIBTINS_VERIF']
-OPT_PIPE = 'function(sroa,early-cse,instcombine,simplifycfg),cgscc(inline),function(sroa,early-cse,instcombine,simplifycfg),globaldce'
+OPT_PIPE = 'function(sroa,early-cse,instsimplify,simplifycfg),cgscc(inline),function(sroa,early-cse,instsimplify,simplifycfg),globaldce'
+
+
+# never part of any claim: sending packets / waiting for replies (sockets, libpcap)
+DEFAULT_STUBS = [r'_ZN4Tins\w+4sendERNS_12PacketSenderERKNS_16NetworkInterfaceE', r'_ZN4Tins\w+13recv_responseERNS_12PacketSenderERKNS_16NetworkInterfaceE',
+                 r'_ZN4Tins12PacketSender\w+', r'_ZN4Tins16NetworkInterface\w+', r'_ZNK4Tins16NetworkInterface\w+']
 
 
 def sh(cmd, **kw):
@@ -27,10 +32,10 @@ def must(cmd, **kw):
 
 class Unit:
     """One translated unit: a shim (C++ harness entry points) linked with all of libtins, pruned to the cone."""
-    def __init__(self, name, shim=None, shim_text=None, stubs=(), models=(), differential=True, extra_ll_flags=()):
+    def __init__(self, name, shim=None, shim_text=None, stubs=(), models=(), differential=True, extra_ll_flags=(), ctors=True):
         self.name = name; self.shim = shim; self.shim_text = shim_text
         self.stubs = list(stubs); self.models = list(models); self.differential = differential
-        self.extra_ll_flags = list(extra_ll_flags)
+        self.extra_ll_flags = list(extra_ll_flags); self.ctors = ctors
 
 
 class Inst:
@@ -63,6 +68,13 @@ class Build:
     # ---- whole-library compile (every run, from the working tree) ----
     def compile_all(self, native=True):
         t0 = time.time()
+        dc = os.environ.get('VERIF_DEVCACHE')   # development only: reuse a previous library build (never set by MANIFEST commands)
+        if dc and os.path.exists(dc + '/state.pickle'):
+            import pickle
+            st = pickle.load(open(dc + '/state.pickle', 'rb'))
+            self.__dict__.update(st); self.dir_lib = dc
+            for k in ('all2.bc',): os.symlink(dc + '/' + k, self.dir + '/' + k)
+            return
         srcs = []
         for root, _, files in os.walk(os.path.join(REPO, 'src')):
             for f in sorted(files):
@@ -87,7 +99,80 @@ class Build:
         lls = sorted(self.dir + '/ll/' + f for f in os.listdir(self.dir + '/ll'))
         must(['llvm-link-14'] + lls + ['-o', self.dir + '/all.bc'])
         self.objs = sorted(self.dir + '/obj/' + f for f in os.listdir(self.dir + '/obj')) if native else []
+        # one text pass over the linked library: resolve aliases, drop comdats and llvm.global_ctors, apply the default stubs
+        must(['llvm-dis-14', self.dir + '/all.bc', '-o', self.dir + '/all.ll'])
+        text = open(self.dir + '/all.ll').read()
+        text, self.ctor_names = self._normalise(text)
+        self.alias = dict(Build._last_alias)
+        text, _ = self._stub(text, DEFAULT_STUBS, required=False)
+        self.all_text = text
+        open(self.dir + '/all2.ll', 'w').write(text)
+        must(['llvm-as-14', self.dir + '/all2.ll', '-o', self.dir + '/all2.bc'])
+        self.refs, self.gl = self._refgraph(text)
         self.t_build += time.time() - t0
+        if dc:
+            import pickle
+            os.makedirs(dc, exist_ok=True)
+            for k in ('all2.bc',): shutil.copy(self.dir + '/' + k, dc + '/' + k)
+            shutil.rmtree(dc + '/obj', ignore_errors=True); shutil.copytree(self.dir + '/obj', dc + '/obj')
+            self.objs = sorted(dc + '/obj/' + f for f in os.listdir(dc + '/obj'))
+            pickle.dump(dict(alias=self.alias, all_text=self.all_text, ctor_names=self.ctor_names, refs=self.refs, gl=self.gl, objs=self.objs, src_hash=self.src_hash), open(dc + '/state.pickle', 'wb'))
+
+    @staticmethod
+    def _normalise(text, alias=None):
+        alias = dict(alias or {})
+        def _al(m):
+            alias[m.group(1)] = m.group(2); return ''
+        text = re.sub(r'^@("[^"]+"|[\w.$]+) = [^\n]*\balias [^\n]*? @("[^"]+"|[\w.$]+)\n', _al, text, flags=re.M)
+        if alias:
+            text = re.sub(r'@("[^"]+"|[\w.$]+)', lambda m: '@' + alias.get(m.group(1), m.group(1)), text)
+        m = re.search(r'^@llvm\.global_ctors = .*\n', text, re.M)
+        ctor_names = re.findall(r'void \(\)\* @("[^"]+"|[\w.$]+)', m.group(0)) if m else []
+        if m: text = text[:m.start()] + text[m.end():]
+        for c in ctor_names:   # keep static constructors nameable (they are selected per unit, see _needed_ctors)
+            text = re.sub(r'^define internal (void @%s\()' % re.escape(c), r'define \1', text, flags=re.M)
+        text = re.sub(r'^\$("[^"]+"|[\w.$]+) = comdat \w+\n', '', text, flags=re.M)
+        text = re.sub(r',? comdat(\(\$("[^"]+"|[\w.$]+)\))?(?=[ ,\n])', '', text)
+        seen = set()
+        def _dd(m):
+            if m.group(1) in seen: return ''
+            seen.add(m.group(1)); return m.group(0)
+        if alias: text = re.sub(r'^declare [^\n]*?@("[^"]+"|[\w.$]+)\([^\n]*\n', _dd, text, flags=re.M)
+        Build._last_alias = alias
+        return text, ctor_names
+
+    @staticmethod
+    def _stub(text, patterns, required=True):
+        rxs = [re.compile(p) for p in patterns]
+        hits = [0] * len(rxs); kill = []
+        def _one(m):
+            name = m.group(2)
+            for i, rx in enumerate(rxs):
+                if rx.fullmatch(name):
+                    hits[i] += 1; kill.append(name)
+                    hdr = m.group(1)
+                    hdr = re.sub(r'^define', 'declare', hdr)
+                    hdr = re.sub(r'\b(internal|private|linkonce_odr|linkonce|weak_odr|weak|available_externally|dso_local) ', '', hdr)
+                    hdr = re.sub(r' personality .*?\)(?= |$)', '', hdr)
+                    hdr = re.sub(r' section "[^"]*"', '', hdr)
+                    hdr = re.sub(r' ![a-z]+ !\d+', '', hdr)
+                    hdr = re.sub(r'\s*\{\s*$', '', hdr)
+                    return hdr + '\n'
+            return m.group(0)
+        text = re.sub(r'^(define [^\n]*?@("[^"]+"|[\w.$]+)\([^\n]*\{)\n.*?^\}\n', _one, text, flags=re.M | re.S)
+        if required:
+            for i, pat in enumerate(patterns):
+                if not hits[i]: raise RuntimeError('stub pattern matches nothing: ' + pat)
+        return text, kill
+
+    @staticmethod
+    def _refgraph(text):
+        refs = {}; gl = {}
+        for fm in re.finditer(r'^define [^@]*@("[^"]+"|[\w.$]+)\(.*?\n\}\n', text, re.M | re.S):
+            refs[fm.group(1)] = set(re.findall(r'@("[^"]+"|[\w.$]+)', fm.group(0))) - {fm.group(1)}
+        for gm in re.finditer(r'^@("[^"]+"|[\w.$]+) = (.*)$', text, re.M):
+            gl[gm.group(1)] = set(re.findall(r'@("[^"]+"|[\w.$]+)', gm.group(2)))
+        return refs, gl
 
     # ---- per-unit: link shim, stub, prune to the cone, translate ----
     def build_unit(self, u, native=True):
@@ -100,25 +185,22 @@ class Build:
             shutil.copy(os.path.join(VERIF, 'shim', u.shim), shim_cpp)
         text = open(shim_cpp).read()
         entries = re.findall(r'^\s*H\((h_\w+)\)', text, re.M)
+        if getattr(u, 'only_entries', None): entries = [e for e in entries if e in u.only_entries]
         if not entries: raise RuntimeError('no harness entry points in ' + shim_cpp)
-        must(['clang++-14'] + CXXDEFS + u.extra_ll_flags + ['-I' + VERIF + '/shim', '-O1', '-Xclang', '-disable-llvm-passes', '-gline-tables-only', '-w', '-S', '-emit-llvm', shim_cpp, '-o', d + '/shim.ll'])
-        must(['llvm-link-14', self.dir + '/all.bc', d + '/shim.ll', '-o', d + '/u0.bc'])
-        # stubs: delete bodies of functions whose (mangled) name matches a pattern
-        defined = [l.split()[-1] for l in must(['llvm-nm-14', '--defined-only', d + '/u0.bc']).stdout.splitlines() if l.strip()]
-        kill = []
-        for pat in u.stubs:
-            rx = re.compile(pat)
-            hit = [n for n in defined if rx.fullmatch(n)]
-            if not hit: raise RuntimeError('stub pattern matches nothing: ' + pat)
-            kill += hit
-        cur = d + '/u0.bc'
-        if kill:
-            args = []
-            for n in sorted(set(kill)): args += ['--func=' + n]
-            must(['llvm-extract-14', '--delete'] + args + [cur, '-o', d + '/u1.bc']); cur = d + '/u1.bc'
-        must(['llvm-dis-14', cur, '-o', d + '/u1.ll'])
-        ctors = self._needed_ctors(d + '/u1.ll', entries, d + '/u2.ll')
-        must(['opt-14', '-S', '-passes=internalize,globaldce', '-internalize-public-api-list=' + ','.join(entries + ctors), d + '/u2.ll', '-o', d + '/u3.ll'])
+        must(['clang++-14'] + CXXDEFS + u.extra_ll_flags + ['-I' + VERIF + '/shim', '-O1', '-Xclang', '-disable-llvm-passes', '-gline-tables-only', '-w', '-S', '-emit-llvm', shim_cpp, '-o', d + '/shim0.ll'])
+        stext, sctors = self._normalise(open(d + '/shim0.ll').read(), self.alias)
+        open(d + '/shim.ll', 'w').write(stext)
+        lib_bc = self.dir + '/all2.bc'; refs = self.refs; gl = self.gl; kill = []
+        if u.stubs:
+            t2, kill = self._stub(self.all_text, u.stubs)
+            open(d + '/lib.ll', 'w').write(t2)
+            must(['llvm-as-14', d + '/lib.ll', '-o', d + '/lib.bc']); lib_bc = d + '/lib.bc'
+            refs, gl = self._refgraph(t2)
+        srefs, sgl = self._refgraph(stext)
+        R = dict(refs); R.update(srefs); G = dict(gl); G.update(sgl)
+        ctors = self._needed_ctors(R, G, entries, self.ctor_names + sctors) if u.ctors else []
+        must(['llvm-link-14', lib_bc, d + '/shim.ll', '-o', d + '/u0.bc'])
+        must(['opt-14', '-passes=internalize,globaldce', '-internalize-public-api-list=' + ','.join(entries + ctors), d + '/u0.bc', '-S', '-o', d + '/u3.ll'])
         must(['opt-14', '-S', '-passes=' + OPT_PIPE, d + '/u3.ll', '-o', d + '/unit.ll'])
         r = must([sys.executable, ENGINE + '/ir2c.py', d + '/unit.ll', d + '/unit.c', ','.join(ctors)])
         u.untranslated = re.findall(r'UNTRANSLATED (\S+): (.*)', r.stderr)
@@ -137,23 +219,9 @@ class Build:
         self.t_build += time.time() - t0
         return u
 
-    def _needed_ctors(self, ll, entries, out_ll):
+    @staticmethod
+    def _needed_ctors(refs, gl, entries, ctor_names):
         """Keep only the static constructors that initialise a global the harness cone can read."""
-        text = open(ll).read()
-        m = re.search(r'^@llvm\.global_ctors = .*$', text, re.M)
-        ctor_names = re.findall(r'void \(\)\* @("[^"]+"|[\w.$]+)', m.group(0)) if m else []
-        if m: text = text[:m.start()] + text[m.end():]
-        # one linked module: comdat groups only keep dead static initialisers alive
-        text = re.sub(r'^\$("[^"]+"|[\w.$]+) = comdat \w+\n', '', text, flags=re.M)
-        text = re.sub(r',? comdat(\(\$("[^"]+"|[\w.$]+)\))?(?=[ ,\n])', '', text)
-        open(out_ll, 'w').write(text)
-        refs = {}
-        # functions
-        for fm in re.finditer(r'^define [^@]*@("[^"]+"|[\w.$]+)\(.*?\n\}\n', text, re.M | re.S):
-            refs[fm.group(1)] = set(re.findall(r'@("[^"]+"|[\w.$]+)', fm.group(0))) - {fm.group(1)}
-        gl = {}
-        for gm in re.finditer(r'^@("[^"]+"|[\w.$]+) = (.*)$', text, re.M):
-            gl[gm.group(1)] = set(re.findall(r'@("[^"]+"|[\w.$]+)', gm.group(2)))
         def cone(roots):
             seen = set(); todo = list(roots)
             while todo:
@@ -182,7 +250,7 @@ class Build:
 
     def _build_native(self, u):
         d = u.dir
-        must(['gcc', '-O1', '-w', '-DVP_NATIVE', '-I' + ENGINE, d + '/unit.c', ENGINE + '/rt.c', d + '/entries.c'] + u.models_abs + ['-o', d + '/xlat', '-lstdc++', '-lm'])
+        must(['gcc', '-O1', '-w', '-DVP_NATIVE', '-I' + ENGINE, d + '/unit.c', ENGINE + '/rt.c', d + '/entries.c'] + u.models_abs + ['-o', d + '/xlat', '-no-pie', '-Wl,--unresolved-symbols=ignore-all', '-lstdc++', '-lm'])
         u.xlat_bin = d + '/xlat'
         if u.differential:
             must(['gcc', '-O1', '-w', '-DVP_NATIVE', '-DVP_REAL', '-I' + ENGINE, '-c', ENGINE + '/rt.c', '-o', d + '/rt_real.o'])
@@ -206,7 +274,7 @@ class Build:
         except subprocess.TimeoutExpired:
             return ('TIMEOUT', '', '')
         last = r.stdout.strip().splitlines()[-1] if r.stdout.strip() else ''
-        m = re.match(r'(OK|ASSUME-FAIL|ASSERT-FAIL|MODEL-ASSERT|UNCAUGHT) ?(.*) hash=([0-9a-f]+)$', last)
+        m = re.match(r'(OK|ASSUME-FAIL|ASSERT-FAIL|MODEL-ASSERT|MODEL-ASSUME-FAIL|UNCAUGHT) ?(.*) hash=([0-9a-f]+)$', last)
         if r.returncode != 0 or not m:
             kind = 'SANITIZER' if ('Sanitizer' in r.stderr or 'runtime error' in r.stderr) else 'CRASH(%d)' % r.returncode
             return (kind, r.stderr[-1500:], '')
@@ -221,7 +289,7 @@ def cbmc_cmd(u, inst, extra=()):
             '--max-field-sensitivity-array-size', '512']
     if inst.unwind is not None: cmd += ['--unwind', str(inst.unwind)]
     if inst.unwindset: cmd += ['--unwindset', ','.join('%s:%d' % kv for kv in sorted(inst.unwindset.items()))]
-    if inst.objbits: cmd += ['--object-bits', str(inst.objbits)]
+    cmd += ['--object-bits', str(inst.objbits or 11)]
     if inst.leak: cmd += ['--memory-leak-check']
     cmd += list(inst.flags) + list(extra)
     return cmd
